@@ -75,6 +75,11 @@ func c18GenText(r *RNG, kind string) string {
 		n = r.Range(900, 1500)
 	case "empty":
 		return ""
+	case "binary":
+		// not a journal at all: a file whose very first byte is not valid UTF-8 (a scanned receipt, a UTF-16 export):
+		// the parser fails before it has read a single rune (seeded change C18-d leaked a parser slot on that path, so
+		// that the journals named after GOMAXPROCS such files were never formatted)
+		return Pick(r, []string{"\xff\xd8\xff\xe0\x00\x10JFIF\x00", "\xff\xfe2\x000\x002\x000\x00", "\x89PNG\r\n\x1a\n", "\xe4bc\n"}) + strings.Repeat("x", r.Intn(40))
 	}
 	for _, a := range accounts {
 		if r.Chance(3, 4) {
@@ -788,11 +793,11 @@ func (c *Ctx) c18Multi() {
 		var names []string
 		hasBad := false
 		for k := 0; k < nf; k++ {
-			kind := Pick(r, []string{"plain", "plain", "big", "formatted", "parse-error", "empty"})
+			kind := Pick(r, []string{"plain", "plain", "big", "formatted", "parse-error", "empty", "binary", "binary"})
 			if k == nf-1 && !hasBad && r.Chance(3, 4) {
 				kind = "parse-error"
 			}
-			if kind == "parse-error" {
+			if kind == "parse-error" || kind == "binary" {
 				hasBad = true
 			}
 			f := c.c18GenFile(r, scratch, fmt.Sprintf("j%d.knut", k), kind)
@@ -974,11 +979,11 @@ func c18MultiSizes(c *Ctx, gen int, scratch string) []int {
 	var res []int
 	hasBad := false
 	for k := 0; k < nf; k++ {
-		kind := Pick(r, []string{"plain", "plain", "big", "formatted", "parse-error", "empty"})
+		kind := Pick(r, []string{"plain", "plain", "big", "formatted", "parse-error", "empty", "binary", "binary"})
 		if k == nf-1 && !hasBad && r.Chance(3, 4) {
 			kind = "parse-error"
 		}
-		if kind == "parse-error" {
+		if kind == "parse-error" || kind == "binary" {
 			hasBad = true
 		}
 		f := c.c18GenFile(r, scratch, fmt.Sprintf("j%d.knut", k), kind)
